@@ -337,6 +337,15 @@ func dump(sb *strings.Builder, n datamodel.Node) {
 		sb.WriteString("!nil")
 		return
 	}
+	// a data-model node is null exactly when its kind is null, and never absent
+	// (datamodel.Absent, which typed nodes yield for missing optional fields, has kind null, IsAbsent and not IsNull)
+	isNullKind := n.Kind() == datamodel.Kind_Null
+	if (n.IsNull() && !isNullKind) || (isNullKind && !n.IsNull() && !n.IsAbsent()) {
+		sb.WriteString("!isnull ")
+	}
+	if n.IsAbsent() && !isNullKind {
+		sb.WriteString("!isabsent ")
+	}
 	switch n.Kind() {
 	case datamodel.Kind_Null:
 		sb.WriteByte('n')
@@ -357,6 +366,10 @@ func dump(sb *strings.Builder, n datamodel.Node) {
 			if err != nil {
 				sb.WriteString("!asuint")
 				return
+			}
+			// AsInt of a uint node: the value when it fits int64, an error above
+			if i, err := n.AsInt(); (u <= math.MaxInt64) != (err == nil) || (err == nil && uint64(i) != u) {
+				sb.WriteString("!uint-asint ")
 			}
 			sb.WriteByte('i')
 			sb.WriteString(strconv.FormatUint(u, 16))
